@@ -858,6 +858,19 @@ pub fn gen_validate(c: &mut Ctx, out: &mut Vec<String>) {
 
 /// msg.police (C16): request messages x supported/required subsets of present and absent types
 pub fn gen_police(c: &mut Ctx, out: &mut Vec<String>) {
+    // requests with hundreds of unsupported comprehension-required attributes: the 420 response lists every one of them
+    for n in [240usize, 241, 300, 700] {
+        let mut m = header(0x0001, 0, rand_tid(c.rng));
+        for k in 0..n {
+            let l = c.rng.below(3) as usize;
+            m.extend(tlv(0x1000 + k as u16, &c.rng.bytes(l), 0));
+        }
+        let l = m.len() - 20;
+        m[2] = (l >> 8) as u8;
+        m[3] = l as u8;
+        out.push(format!("msg op=police b={} sup=- req=-", hex(&m)));
+        out.push(format!("msg op=police b={} sup=1000.1001 req=0006", hex(&m)));
+    }
     for _ in 0..c.count {
         let tail = c.rng.pick(&["", "", "i", "f", "if", "ij", "ijf", "jf", "j", "ji", "jif"]).to_string();
         // class bits cleared: a request
